@@ -4,6 +4,135 @@ use crate::{catch, pipe, rec, sexp::dbg};
 use axcut2backend::coder::compile;
 use std::io::Write;
 
+/// linear AxCut programs from `n` random Fun programs (seeded) through the real pipeline
+pub fn generated_linear_programs(seed: u64, n: usize) -> Vec<(String, axcut::syntax::Prog)> {
+    let mut out = Vec::new();
+    let mut rng = crate::rng::Rng::new(seed ^ 0x5eed_f00d);
+    for k in 0..n {
+        let mut r = rng.fork();
+        let cfg = crate::gen_fun::FunGenCfg::mix(&mut r);
+        let g = crate::gen_fun::gen_program(&mut r, &cfg);
+        if let Ok(p) = pipe::linearized(&g.text) {
+            out.push((format!("gen:{seed}:{k}"), p));
+        }
+    }
+    out
+}
+
+/// C13: linear AxCut programs built directly: k live variables of mixed kinds (integers and boxed
+/// objects), one of the integers is printed, and afterwards EVERY variable is used (objects are
+/// unboxed), so a value lost across the call of the print runtime changes the result.
+pub fn print_context_programs(seed: u64, n: usize) -> Vec<(String, axcut::syntax::Prog)> {
+    use axcut::syntax::statements::*;
+    use axcut::syntax::*;
+    use std::rc::Rc;
+    let mut out = Vec::new();
+    let mut rng = crate::rng::Rng::new(seed ^ 0xc13);
+    let idt = |name: &str, id: usize| Identifier { name: name.to_string(), id };
+    let boxty = Ty::Decl(idt("Box", 0));
+    for case in 0..n {
+        let k = if case < 24 { case % 24 } else { rng.below(24) };   // 0..23 live variables
+        let nargs = rng.below(6).min(k);
+        let mut id = 0usize;
+        let mut fresh = |name: &str| { id += 1; Identifier { name: name.to_string(), id } };
+        // kinds: true = integer, false = boxed object; parameters are integers
+        let kinds: Vec<bool> = (0..k).map(|i| i < nargs || rng.chance(2, 3)).collect();
+        let vars: Vec<Identifier> = (0..k).map(|i| fresh(&format!("v{i}"))).collect();
+        let printed = if k == 0 { None } else { let ints: Vec<usize> = (0..k).filter(|i| kinds[*i]).collect(); if ints.is_empty() { None } else { Some(ints[rng.below(ints.len())]) } };
+        let newline = rng.chance(1, 2);
+        // build the tail first: consume everything
+        let ctx_of = |upto: usize| -> Vec<ContextBinding> {
+            (0..upto).map(|i| ContextBinding { var: vars[i].clone(), chi: if kinds[i] { Chirality::Ext } else { Chirality::Prd }, ty: if kinds[i] { Ty::I64 } else { boxty.clone() } }).collect()
+        };
+        // after the print: acc = 0; for each variable from the LAST to the first: if object, switch on it
+        // (it must be last in the context) binding its field; acc = acc*3 + value
+        let acc0 = fresh("acc");
+        let mut acc = acc0.clone();
+        // statements are built inside-out, so collect a plan first
+        enum Step { Unbox(usize, Identifier), Add(Identifier, Identifier, Identifier, Identifier, Identifier) }
+        let mut plan: Vec<Step> = Vec::new();
+        // context during consumption: vars[0..i+1] ++ [acc]
+        for i in (0..k).rev() {
+            let three = fresh("three");
+            let t1 = fresh("t");
+            let acc2 = fresh("acc");
+            let val = if kinds[i] { vars[i].clone() } else { let f = fresh(&format!("f{i}")); plan.push(Step::Unbox(i, f.clone())); f };
+            plan.push(Step::Add(three, t1, acc.clone(), val, acc2.clone()));
+            acc = acc2;
+        }
+        let mut stmt: Statement = Exit { var: acc.clone() }.into();
+        // we need exact linear contexts: rather than tracking them by hand we emit a Substitute before
+        // each Switch that brings the scrutinee to the end, and rely on dropping nothing else
+        // (contexts are tracked in `live` below)
+        let mut lives: Vec<Vec<ContextBinding>> = Vec::new();
+        {
+            // forward simulation of contexts
+            let mut live: Vec<ContextBinding> = ctx_of(k);
+            live.push(ContextBinding { var: acc0.clone(), chi: Chirality::Ext, ty: Ty::I64 });
+            for st in &plan {
+                lives.push(live.clone());
+                match st {
+                    Step::Unbox(i, f) => {
+                        // substitute: move vars[i] to the end, then switch replaces it by its field
+                        let pos = live.iter().position(|b| b.var == vars[*i]).unwrap();
+                        let b = live.remove(pos);
+                        let _ = b;
+                        live.push(ContextBinding { var: f.clone(), chi: Chirality::Ext, ty: Ty::I64 });
+                    }
+                    Step::Add(three, t1, _a, _v, acc2) => {
+                        live.push(ContextBinding { var: three.clone(), chi: Chirality::Ext, ty: Ty::I64 });
+                        live.push(ContextBinding { var: t1.clone(), chi: Chirality::Ext, ty: Ty::I64 });
+                        live.push(ContextBinding { var: acc2.clone(), chi: Chirality::Ext, ty: Ty::I64 });
+                    }
+                }
+            }
+        }
+        for (st, live) in plan.iter().zip(lives.iter()).rev() {
+            match st {
+                Step::Add(three, t1, a, v, acc2) => {
+                    stmt = Literal { lit: 3, var: three.clone(),
+                        next: Rc::new(Op { fst: a.clone(), op: BinOp::Prod, snd: three.clone(), var: t1.clone(),
+                            next: Rc::new(Op { fst: t1.clone(), op: BinOp::Sum, snd: v.clone(), var: acc2.clone(), next: Rc::new(stmt), free_vars_next: None }.into()),
+                            free_vars_next: None }.into()),
+                        free_vars_next: None }.into();
+                }
+                Step::Unbox(i, f) => {
+                    let pos = live.iter().position(|b| b.var == vars[*i]).unwrap();
+                    let mut re: Vec<(ContextBinding, Identifier)> = Vec::new();
+                    for (j, b) in live.iter().enumerate() { if j != pos { re.push((b.clone(), b.var.clone())); } }
+                    re.push((live[pos].clone(), live[pos].var.clone()));
+                    let sw: Statement = Switch { var: vars[*i].clone(), ty: boxty.clone(),
+                        clauses: vec![Clause { xtor: idt("B", 0), context: vec![ContextBinding { var: f.clone(), chi: Chirality::Ext, ty: Ty::I64 }].into(), body: Rc::new(stmt) }],
+                        free_vars_clauses: None }.into();
+                    stmt = Substitute { rearrange: re, next: Rc::new(sw) }.into();
+                }
+            }
+        }
+        stmt = Literal { lit: 0, var: acc0.clone(), next: Rc::new(stmt), free_vars_next: None }.into();
+        if let Some(pi) = printed {
+            stmt = PrintI64 { newline, var: vars[pi].clone(), next: Rc::new(stmt), free_vars_next: None }.into();
+        }
+        // build the variables (after the parameters) from the last to the first
+        for i in (nargs..k).rev() {
+            if kinds[i] {
+                stmt = Literal { lit: 100 + i as i64, var: vars[i].clone(), next: Rc::new(stmt), free_vars_next: None }.into();
+            } else {
+                let tmp = fresh(&format!("b{i}"));
+                let l: Statement = Let { var: vars[i].clone(), ty: boxty.clone(), tag: idt("B", 0),
+                    args: vec![ContextBinding { var: tmp.clone(), chi: Chirality::Ext, ty: Ty::I64 }].into(), next: Rc::new(stmt), free_vars_next: None }.into();
+                stmt = Literal { lit: 1000 + i as i64, var: tmp, next: Rc::new(l), free_vars_next: None }.into();
+            }
+        }
+        let prog = Prog {
+            defs: vec![Def { name: idt("main", 0), context: ctx_of(nargs).into(), body: stmt }],
+            types: vec![TypeDeclaration { name: idt("Box", 0), xtors: vec![XtorSig { name: idt("B", 0), args: vec![ContextBinding { var: idt("x", 0), chi: Chirality::Ext, ty: Ty::I64 }].into() }] }],
+            max_id: id,
+        };
+        out.push((format!("printctx:{seed}:{case}:k{k}"), prog));
+    }
+    out
+}
+
 /// linear AxCut programs: from .sc files through the real pipeline
 pub fn linear_programs(dirs: &[String]) -> Vec<(String, axcut::syntax::Prog)> {
     let dirs = if dirs.is_empty() { pipe::default_dirs() } else { dirs.to_vec() };
@@ -18,10 +147,52 @@ pub fn linear_programs(dirs: &[String]) -> Vec<(String, axcut::syntax::Prog)> {
     out
 }
 
-pub fn cmd_codegen(which: &str, _seed: u64, _n: usize, out: &mut dyn Write, dirs: &[String]) {
-    for (k, (name, prog)) in linear_programs(dirs).into_iter().enumerate() {
+/// C10 families: programs `main(n)` that build and drop a structure n times; the case carries the
+/// iteration counts so that the model side can compare the allocation frontier across them.
+pub fn cmd_c10(which: &str, _seed: u64, _n: usize, out: &mut dyn Write, dirs: &[String]) {
+    let verif = pipe::verif_root();
+    let dirs: Vec<String> = if dirs.is_empty() { vec![format!("{verif}/corpus/c10")] } else { dirs.to_vec() };
+    for (k, (name, prog)) in linear_programs(&dirs).into_iter().enumerate() {
         let lc = axcut2backend::fresh_labels::fresh_label();
-        let input = format!("({} {} {})", crate::sexp::quote(&name), dbg(&prog), lc);
+        let input = format!("({} {} {} ((2) (8) (32)))", crate::sexp::quote(&name), dbg(&prog), lc);
+        let p2 = prog.clone();
+        let w = which.to_string();
+        let res = catch(move || match w.as_str() {
+            "x86" => {
+                let a = compile::<axcut2x86_64::Backend, _, _, _>(p2);
+                let r = axcut2x86_64::into_routine::into_x86_64_routine(a);
+                format!("({} {})", dbg(&r.instructions), r.number_of_arguments)
+            }
+            _ => panic!("unknown backend"),
+        });
+        writeln!(out, "(case {k} {input} {res})").unwrap();
+    }
+}
+
+pub fn cmd_codegen(which: &str, _seed: u64, _n: usize, out: &mut dyn Write, dirs: &[String]) {
+    let mut progs = if dirs.first().map(|d| d == "printctx").unwrap_or(false) {
+        print_context_programs(_seed, _n.max(24))
+    } else {
+        let mut p = linear_programs(dirs);
+        p.extend(generated_linear_programs(_seed, _n));
+        p
+    };
+    for (k, (name, prog)) in progs.into_iter().enumerate() {
+        let lc = axcut2backend::fresh_labels::fresh_label();
+        let arity = prog.defs.first().map(|d| d.context.bindings.len()).unwrap_or(0);
+        let mut rng = crate::rng::Rng::new(_seed.wrapping_add(k as u64));
+        let mut tuples = String::from("(");
+        for t in 0..4 {
+            tuples.push('(');
+            for a in 0..arity {
+                if a > 0 { tuples.push(' '); }
+                let v: i64 = match t { 0 => (a as i64) + 1, 1 => rng.below(20) as i64, 2 => -(rng.below(20) as i64), _ => rng.i64_interesting() };
+                tuples.push_str(&v.to_string());
+            }
+            tuples.push(')');
+        }
+        tuples.push(')');
+        let input = format!("({} {} {} {})", crate::sexp::quote(&name), dbg(&prog), lc, tuples);
         let p2 = prog.clone();
         let w = which.to_string();
         let res = catch(move || match w.as_str() {
